@@ -53,7 +53,8 @@ class World(object):
             datasets.append(self.img)
         self.dc = DataCollection(datasets)
         if kind == 'linked':
-            self.link = ComponentLink([self.cx], self.cu, using=lambda x: 2 * x)
+            factor = p.get('linkfn', 2)
+            self.link = ComponentLink([self.cx], self.cu, using=lambda x: factor * x)
             if p['link']:
                 self.dc.add_link(self.link)
         self.target = self.img if kind == 'floodfill' else self.d
@@ -195,6 +196,20 @@ def m_link(on):
     def model(p):
         p['link'] = on
     return ('link:%s' % ('add' if on else 'remove'), real, model)
+
+
+def m_link_swap():
+    """replace the registered link by another link to the SAME attribute (reachable set unchanged)"""
+    def real(w):
+        from glue.core.component_link import ComponentLink
+        new = ComponentLink([w.cx], w.cu, using=lambda x: 3 * x)
+        w.dc.set_links([new])
+        w.link = new
+
+    def model(p):
+        p['linkfn'] = 3
+        p['link'] = True
+    return ('link:swap', real, model)
 
 
 # ---------------------------------------------------------------------------------------------
@@ -410,7 +425,7 @@ KINDS = {
     'mask': dict(s0=dict(mask=[True, False, True, False, False, True]), make=mk_mask, muts=DATA + [mask_set()]),
     'floodfill': dict(s0=dict(start=(0, 0), thr=1.2), make=mk_floodfill, muts=[m_upd_img(), setter([], 'threshold', 5.5, 'thr'),
                                                setter([], 'start_coords', (2, 0), 'start')]),
-    'linked': dict(s0=dict(thr=5.0), make=mk_linked, muts=[m_upd_x(1), m_link(False), m_link(True), setter([], 'right', 7.0, 'thr')]),
+    'linked': dict(s0=dict(thr=5.0), make=mk_linked, muts=[m_upd_x(1), m_link(False), m_link(True), m_link_swap(), setter([], 'right', 7.0, 'thr')]),
 }
 
 
